@@ -306,10 +306,10 @@ def r35_3(ctx, m):
 
 
 # ---------------------------------------------------------------------------------------------------------------- interpolation
-def r35_4(ctx, m):
+def r35_4(ctx, m, rid="R35.4"):
     L = m.cls(OPS + "linear_interpolation", "LinearInterpolator")
     ctx.saw_class(L)
-    ctx.rule("R35.4", "LinearInterpolator._build_mat: base cell = floor(position) and excess = position - floor(position) from the "
+    ctx.rule(rid, "LinearInterpolator._build_mat: base cell = floor(position) and excess = position - floor(position) from the "
                       "same floor (not a truncation); the weight of corner c is prod_d |1 - c_d - excess_d| (= (1-e) for c=0, e for "
                       "c=1: exact for multilinear functions); the column is the flat index of (base + c) wrapped at the domain shape, "
                       "with the same corner vector; row = point number; forward = matvec, adjoint = rmatvec of the same matrix", floor=6)
@@ -323,7 +323,7 @@ def r35_4(ctx, m):
     key = f"{bm.key}::sparse matrix (weights, (point, flat pixel))"
     if len(coo) != 1 or not (coo[0][1].args and isinstance(coo[0][1].args[0], ast.Tuple) and len(coo[0][1].args[0].elts) == 2
                              and isinstance(coo[0][1].args[0].elts[1], ast.Tuple) and len(coo[0][1].args[0].elts[1].elts) == 2):
-        ctx.und("R35.4", key, "coo_matrix((data, (rows, cols)), shape) not found", bm)
+        ctx.und(rid, key, "coo_matrix((data, (rows, cols)), shape) not found", bm)
         return
     n, c = coo[0]
 
@@ -335,10 +335,10 @@ def r35_4(ctx, m):
     rn_, cn = [base_name(x) for x in c.args[0].elts[1].elts]
     npts = bm.params()[2]
     shape_ok = len(c.args) == 2 and _norm(c.args[1]) == f"({npts},np.prod(self.domain.shape))"
-    ctx.check("R35.4", key, shape_ok, src(c)[:200], bm)
+    ctx.check(rid, key, shape_ok, src(c)[:200], bm)
     loops = [st for st in walk_no_nested(bm.node) if isinstance(st, ast.For)]
     if len(loops) != 1:
-        ctx.und("R35.4", f"{bm.key}::corner loop", f"{len(loops)} loops", bm)
+        ctx.und(rid, f"{bm.key}::corner loop", f"{len(loops)} loops", bm)
         return
     lv = src(loops[0].target)
     stores = {}
@@ -346,14 +346,14 @@ def r35_4(ctx, m):
         if nn.kind == "stmt" and isinstance(nn.ast, ast.Assign) and isinstance(nn.ast.targets[0], ast.Subscript) and any(x is nn.ast for x in ast.walk(loops[0])):
             stores[src(nn.ast.targets[0].value)] = (nn, nn.ast)
     if not {dn, rn_, cn} <= set(stores):
-        ctx.und("R35.4", f"{bm.key}::per-corner stores", f"stores into {sorted(stores)}; matrix uses {dn, rn_, cn}", bm)
+        ctx.und(rid, f"{bm.key}::per-corner stores", f"stores into {sorted(stores)}; matrix uses {dn, rn_, cn}", bm)
         return
     wn, wst = stores[dn]
     w = inline_at(cfg, rd, wn.id, wst.value, depth=1)
     cnn, cst = stores[cn]
     col = inline_at(cfg, rd, cnn.id, cst.value, depth=1)
     rnn, rst = stores[rn_]
-    ctx.check("R35.4", f"{bm.key}::row index = point number", _norm(rst.value) == f"np.arange({npts})", src(rst.value), bm)
+    ctx.check(rid, f"{bm.key}::row index = point number", _norm(rst.value) == f"np.arange({npts})", src(rst.value), bm)
     # weight term: np.prod(np.abs(1 - K - E), axis=0)
     okw, K, E = False, None, None
     if isinstance(w, ast.Call) and call_name(w) == "prod" and any(k.arg == "axis" and _norm(k.value) == "0" for k in w.keywords) and w.args:
@@ -367,7 +367,7 @@ def r35_4(ctx, m):
     if okw:
         from fractions import Fraction
         okw = all(abs(1 - 0 - e_) == 1 - e_ and abs(1 - 1 - e_) == e_ for e_ in (Fraction(1, 5), Fraction(1, 2), Fraction(7, 9)))
-    ctx.check("R35.4", f"{bm.key}::corner weight = prod_d |1 - c_d - excess_d|", okw, det, bm)
+    ctx.check(rid, f"{bm.key}::corner weight = prod_d |1 - c_d - excess_d|", okw, det, bm)
     # column: ravel_multi_index((P + K) % M, shape)
     okc = False
     P = None
@@ -377,11 +377,11 @@ def r35_4(ctx, m):
             P, K2 = fi_.left.left, fi_.left.right
             Mx = inline_at(cfg, rd, cnn.id, fi_.right, depth=1)
             okc = K is not None and _norm(K2) == _norm(K) and _norm(Mx) == "np.array(self.domain.shape).reshape(-1,1)"
-    ctx.check("R35.4", f"{bm.key}::column = flat index of (base + same corner) wrapped at the domain shape", okc, src(col)[:200], bm)
+    ctx.check(rid, f"{bm.key}::column = flat index of (base + same corner) wrapped at the domain shape", okc, src(col)[:200], bm)
     # one floor
     key = f"{bm.key}::base cell and excess come from the same floor of position/distance"
     if P is None or E is None:
-        ctx.und("R35.4", key, "base / excess terms not identified", bm)
+        ctx.und(rid, key, "base / excess terms not identified", bm)
     else:
         Pd = inline_at(cfg, rd, cnn.id, P, depth=1)
         Ed = inline_at(cfg, rd, wn.id, E, depth=1)
@@ -393,14 +393,14 @@ def r35_4(ctx, m):
             q = _norm(Pd.func.value.args[0])
             okf = et == f"{q}-np.floor({q})" and "int" in _norm(Pd.args[0])
         if q is None and isinstance(Pd, ast.Call) and isinstance(Pd.func, ast.Attribute) and Pd.func.attr == "astype":
-            ctx.bad("R35.4", key, f"base = `{pt}` truncates toward zero: for negative coordinates it is one cell above floor(position) "
+            ctx.bad(rid, key, f"base = `{pt}` truncates toward zero: for negative coordinates it is one cell above floor(position) "
                                   f"while the excess is `{et}`", bm, cst)
         else:
-            ctx.check("R35.4", key, okf, f"base {pt}; excess {et}", bm)
+            ctx.check(rid, key, okf, f"base {pt}; excess {et}", bm)
     xn, mn = ap.params()[1:3]
     spf = Spec(m, L, ap, {mn: 1}).run()
     spa = Spec(m, L, ap, {mn: 2}).run()
     tf = [_norm(e) for e, a, st in spf.returns]
     ta = [_norm(e) for e, a, st in spa.returns]
     okk = len(tf) == 1 and len(ta) == 1 and "self._sop.matvec(" in tf[0] and "rmatvec" not in tf[0] and "self._sop.rmatvec(" in ta[0] and "reshape(self.domain.shape)" in ta[0]
-    ctx.check("R35.4", f"{ap.key}::forward = matvec, adjoint = rmatvec reshaped to the domain", okk, f"{tf} / {ta}", ap)
+    ctx.check(rid, f"{ap.key}::forward = matvec, adjoint = rmatvec reshaped to the domain", okk, f"{tf} / {ta}", ap)
